@@ -16,11 +16,6 @@ import (
 	"verif/harness/ref"
 )
 
-type namedHasher struct {
-	name string
-	mk   func() hash.Hasher
-}
-
 func c01Hashers() []namedHasher {
 	long := string(bytes.Repeat([]byte("long-tag-"), 40))
 	mkK := func(tag string) namedHasher {
